@@ -61,7 +61,7 @@ static long forkgen; static long crash_gen = -1, fault_gen = -1;
 static volatile long long *clockoff;
 static int drive; static int ctlfd = -1; static const char *ctlpath;
 static const char *gatepath; static int gatefd = -1; static pid_t gatepid;
-static long spins; static long calls_since_select; static long max_idle_spins;
+static long spins; static long calls_since_select; static long max_idle_spins; static long ready_spins;
 static int in_shim;
 
 static int cred_set; static long cred_uid = -1, cred_gid = -1; static char cred_groups[128] = "";
@@ -198,6 +198,20 @@ static void gate(const char *kind, const char *call, const char *path)
     if (real_write(gatefd, b, n) == n) {
       for (;;) { k = real_read(gatefd, r, 1); if (k == 1 || (k < 0 && errno != EINTR) || k == 0) break; }
     }
+  }
+  in_shim--;
+}
+
+/* tell the scheduler that this process is about to exec: the new image counts as running until it connects or dies */
+static void gate_exec_note(const char *path)
+{
+  char b[700], e[520]; int n; REAL(write);
+  if (!gatepath || in_shim) return;
+  in_shim++;
+  if (gate_connect() >= 0) {
+    esc(e, sizeof e, path ? path : "-");
+    n = snprintf(b, sizeof b, "EXE %d %s exec %s\n", (int)syscall(SYS_getpid), key, e);
+    if (real_write(gatefd, b, n) < 0) {}
   }
   in_shim--;
 }
@@ -721,18 +735,21 @@ int execve(const char *path, char *const argv[], char *const envp[])
 {
   REAL(execve); init(); save_cred(); trexec(path, argv);
   if (maybe_fault("exec") == 1) return -1;
+  gate_exec_note(path);
   return real_execve(path, argv, envp == environ ? environ : envp);
 }
 int execv(const char *path, char *const argv[])
 {
   REAL(execve); init(); save_cred(); trexec(path, argv);
   if (maybe_fault("exec") == 1) return -1;
+  gate_exec_note(path);
   return real_execve(path, argv, environ);
 }
 int execvp(const char *file, char *const argv[])
 {
   REAL(execvpe); init(); save_cred(); trexec(file, argv);
   if (maybe_fault("exec") == 1) return -1;
+  gate_exec_note(file);
   return real_execvpe(file, argv, environ);
 }
 
@@ -743,7 +760,15 @@ pid_t fork(void)
   r = real_fork();
   if (r == 0) { mutcount = 0; memset(classcount, 0, sizeof classcount); spins = 0; ++forkgen;
     if (gatepath) { if (gatefd >= 0) { REAL(close); real_close(gatefd); gatefd = -1; } gate("REQ", "forked", "-"); } }
-  else tr("fork\t%d", (int)r);
+  else {
+    tr("fork\t%d", (int)r);
+    if (gatepath && r > 0 && !in_shim) {   /* the child counts as running until it reports to the scheduler itself */
+      char b[128]; int n; REAL(write);
+      in_shim++;
+      if (gate_connect() >= 0) { n = snprintf(b, sizeof b, "FRK %d %s fork %d\n", (int)syscall(SYS_getpid), key, (int)r); if (real_write(gatefd, b, n) < 0) {} }
+      in_shim--;
+    }
+  }
   return r;
 }
 
@@ -807,6 +832,8 @@ int select(int nfds, fd_set *rf, fd_set *wf, fd_set *ef, struct timeval *tv)
     r = real_select(nfds, rf ? &r1 : 0, wf ? &w1 : 0, 0, &z);
     if (r != 0 || tmo == 0) {
       if (tmo == 0 && r == 0) { if (calls_since_select == 0) ++spins; else spins = 1; if (spins > max_idle_spins) max_idle_spins = spins; } else spins = 0;
+      /* select() reporting readiness over and over while the program does nothing about it is spinning, too */
+      if (r > 0) { if (calls_since_select == 0) ++ready_spins; else ready_spins = 0; if (ready_spins > 20000) { tr("BUSYLOOP\tready\t%ld", ready_spins); raise(SIGKILL); } }
       calls_since_select = 0;
       if (rf) *rf = r1; if (wf) *wf = w1; if (ef) FD_ZERO(ef);
       if (tracefd >= 0 && (r != 0 || spins <= 2)) { char a[256]; fmtset(a, sizeof a, nfds, rf); tr("select\t%ld\t%d\t%s\t%ld", tmo, r, a, spins); calls_since_select = 0; }
